@@ -178,6 +178,10 @@ pub fn run_case(case: &Case) -> Outcome {
             );
             "chan".to_string()
         }
+        Caught::Budget { what, n } => {
+            out.violate(format!("C03 non-termination {scenario} {what}"), format!("{n} steps"));
+            "budget".to_string()
+        }
     };
     // reach probes derived from where the stream stopped
     let eff = &doc[..case.read.truncate.map_or(len, |t| t.min(len))];
@@ -374,7 +378,7 @@ impl C03 {
     fn sizes(&self) -> (usize, usize, usize, usize) {
         // (generated zinc docs, generated json docs, search units, cases per search unit)
         match self.ctx.tier {
-            Tier::Quick => (120, 50, 48, 1500),
+            Tier::Quick => (300, 120, 128, 3000),
             Tier::Thorough => (1500, 600, 640, 4000),
         }
     }
@@ -531,6 +535,13 @@ impl Engine for C03 {
 
     fn run(&self, case: &Case) -> Outcome {
         run_case(case)
+    }
+
+    fn components(&self) -> (Vec<&'static str>, Vec<&'static str>) {
+        (
+            vec!["zinc scanner", "zinc lexer", "zinc parser (parse_value, list, dict, grid, RowIterator)", "zinc scalar parsers", "zinc from_str", "Hayson Deserialize impls + visitor", "serde_json"],
+            vec!["byte channel (SimReader)"],
+        )
     }
 
     fn rule(&self) -> String {
